@@ -25,6 +25,15 @@ func c04TreesB() (src, dst tm.Tree) {
 	return
 }
 
+// c04TreesC: a symlink whose place is taken by a non-empty directory at the destination. The session may
+// end with an error for that entry (rsync cannot make way without --force); whatever it does, nothing but
+// complete old or new entries may be left — in particular no temporary symlink.
+func c04TreesC() (src, dst tm.Tree) {
+	src = tm.Tree{tm.D("releases", 0o755, tm.Past), tm.File("releases/v2", genData(famText, 40, 71), 0o644, tm.Past), tm.L("current", "releases/v2"), tm.File("other", genData(famText, 50, 72), 0o644, tm.Past), tm.L("zlink", "other")}
+	dst = tm.Tree{tm.D("current", 0o755, tm.Past), tm.File("current/keep", []byte("in the way"), 0o644, tm.Past), tm.L("zlink", "elsewhere")}
+	return
+}
+
 func c04Trees() (src, dst tm.Tree) {
 	basis := genData(famHash, 2100, 40)
 	changed := append([]byte{}, basis...)
@@ -126,6 +135,7 @@ type c04Scenario struct {
 	faults   bool
 	chunking bool
 	treeB    bool
+	treeC    bool // a non-empty directory in the way of a symlink: the session may fail
 	shard    int
 	nshards  int
 }
@@ -136,6 +146,10 @@ func c04Run(s c04Scenario) core.Result {
 	if s.treeB {
 		src, dst = c04TreesB()
 		res.Case += " tree=file-replaces-symlink"
+	}
+	if s.treeC {
+		src, dst = c04TreesC()
+		res.Case += " tree=directory-in-the-way-of-symlink"
 	}
 	var curDst string
 	var invChecks int64
@@ -221,6 +235,9 @@ func c04Run(s c04Scenario) core.Result {
 			}
 			return ""
 		}
+		if s.treeC {
+			return "" // this session may legitimately end with an error; invariant and temp files were checked above
+		}
 		if !strings.Contains(x.Outcome, "client_ok=true server_ok=true") || !strings.Contains(x.Outcome, "complete=true") {
 			return "undisturbed session did not complete: " + x.Outcome
 		}
@@ -247,7 +264,7 @@ func c04Run(s c04Scenario) core.Result {
 			sym = "session_failed"
 		}
 		n := len(st.FirstBad.Descr)
-		res.Fail = core.Fail(sym, fmt.Sprintf("%s | choices=%s | last steps %v", st.FirstBadWhy, compact(st.FirstBad.Choices), st.FirstBad.Descr[max(0, n-6):]), "arr", s.arr, "tree", map[bool]string{false: "main", true: "file-replaces-symlink"}[s.treeB])
+		res.Fail = core.Fail(sym, fmt.Sprintf("%s | choices=%s | last steps %v", st.FirstBadWhy, compact(st.FirstBad.Choices), st.FirstBad.Descr[max(0, n-6):]), "arr", s.arr, "tree", map[bool]string{false: "main", true: "file-replaces-symlink"}[s.treeB], "treeC", fmt.Sprint(s.treeC))
 		return res
 	}
 	res.Nontrivial = broken > 0 || invChecks > 100
@@ -275,6 +292,7 @@ func c04BuildScenarios(tier string) core.Source {
 		}
 		cases = append(cases, c04Scenario{arr: arr, c2s: 0, s2c: 0, bound: 1, faults: true})
 		cases = append(cases, c04Scenario{arr: arr, c2s: sched.Inf, s2c: sched.Inf, bound: 1, faults: true, treeB: true})
+		cases = append(cases, c04Scenario{arr: arr, c2s: sched.Inf, s2c: sched.Inf, bound: 1, faults: true, treeC: true})
 		if tier == "thorough" {
 			cases = append(cases, c04Scenario{arr: arr, c2s: 1, s2c: 1, bound: 1, faults: true})
 			cases = append(cases, c04Scenario{arr: arr, c2s: sched.Inf, s2c: sched.Inf, bound: 2, faults: true, chunking: true})
@@ -288,7 +306,7 @@ func init() {
 	core.Register(&core.Prop{
 		ID:    "C04",
 		Level: "model_checking",
-		Rule: "multi-file sessions (new file, delta-replaced file, file with appended data, file with a shorter different end, file replacing a symlink, replaced symlink, new symlink, replaced file) as library pull, daemon pull and daemon upload under the controlled scheduler: the state invariant is evaluated at every scheduling point (receiver frozen at a transport gate; with capacity 11 that is every 11 bytes, thorough: every 7 bytes and every byte) of every execution with <=1 (thorough <=2) deviations, and the connection is cut at every scheduling point (one extra execution per point). " +
+		Rule: "multi-file sessions (new file, delta-replaced file, file with appended data, file with a shorter different end, file replacing a symlink, symlink whose place is taken by a non-empty directory, replaced symlink, new symlink, replaced file) as library pull, daemon pull and daemon upload under the controlled scheduler: the state invariant is evaluated at every scheduling point (receiver frozen at a transport gate; with capacity 11 that is every 11 bytes, thorough: every 7 bytes and every byte) of every execution with <=1 (thorough <=2) deviations, and the connection is cut at every scheduling point (one extra execution per point). " +
 			"invariant: every listed path holds its complete previous content (or is still absent) or the complete new content, link targets are old or new, anything else on disk has a renameio temp name; after a cut the session must not report success with an incomplete destination, and once both ends returned and the connection is closed no temp file remains; inotify: the kernel event trace of the destination directories during a free-running session in all 5 arrangements, plain and with --delete (listed names sorting between a directory and its contents, extraneous entries), shows no in-place write, delete, move-away or create-then-fill on any listed name. states = invariant evaluations, transitions = transport operations",
 		Assum: []string{"instants between two transport operations of the receiver are covered by the inotify part: the kernel's event log of the destination directories must show only rename-into-place events on listed names", "SIGKILL at an arbitrary instant is modelled by freezing the receiver at every transport gate"},
 		Parts: func(tier string) []core.Part {
